@@ -253,6 +253,34 @@ example : ∀ o ∈ [OutDoc.metaDoc .none .nil, .chunk (.at 5#64) (.cons [97] (.
     simp [FileE2E.wireDoc, FileE2E.idMs, FileE2E.binaryRaw, serDoc_length, serElems, serVal, le64, le32, leN, BVal.tag, keyId, keyType,
       keyData, payloadOf, rleEnc, rleEncAux, column, deltas]
 
+/-! ### a chunk has one type per metric -/
+
+/-- **a retyped sample is refused**: same number of metrics, another BSON type at some metric position (a chunk records each
+metric's type once, in its reference document) — the collector answers `types` and is unchanged (seeded change agent7-C03) -/
+theorem retyped_sample_refused (c : Better) (d r : BDoc) (hr : c.ref = some r)
+    (hroom : c.rows.length < c.maxDeltas) (hlen : (extractDoc d).length = c.last.length)
+    (hty : (extractDoc d).map (·.2) ≠ c.last.map (·.2)) :
+    c.add d = (c, .types) := by
+  unfold Better.add
+  simp only [hr]
+  rw [if_neg (by omega), if_neg (by simpa using hlen), if_pos hty]
+
+/-- and what is accepted into an open chunk has exactly the chunk's metric types, position by position -/
+theorem accepted_sample_has_chunk_types (c : Better) (d r : BDoc) (hr : c.ref = some r)
+    (hok : (c.add d).2 = .ok) :
+    (extractDoc d).map (·.2) = c.last.map (·.2) ∧ (extractDoc d).length = c.last.length := by
+  unfold Better.add at hok
+  simp only [hr] at hok
+  by_cases h1 : c.rows.length ≥ c.maxDeltas
+  · rw [if_pos h1] at hok; cases hok
+  · rw [if_neg h1] at hok
+    by_cases h2 : (extractDoc d).length ≠ c.last.length
+    · rw [if_pos h2] at hok; cases hok
+    · rw [if_neg h2] at hok
+      by_cases h3 : (extractDoc d).map (·.2) ≠ c.last.map (·.2)
+      · rw [if_pos h3] at hok; cases hok
+      · exact ⟨by simpa using h3, by simpa using h2⟩
+
 /-! ### the encoder loop as regenerated from the Go text
 
 `Gen.Better.getPayload_region` is the translation (harness/cmd/extract/translate.go, rewritten on every run) of the
